@@ -228,6 +228,9 @@ static iwrc _exfile_truncate_lw(struct IWFS_EXT *f, off_t size) {
   uint64_t old_size = impl->fsize;
   bool rsh = false;
 
+  if (size < 0) { // not a size: it would round to zero and empty the file
+    return IW_ERROR_OUT_OF_BOUNDS;
+  }
   size = IW_ROUNDUP(size, impl->psize);
   if (old_size == size) {
     return 0;
@@ -283,6 +286,9 @@ static iwrc _exfile_truncate_lw(struct IWFS_EXT *f, off_t size) {
 static iwrc _exfile_ensure_size_lw(struct IWFS_EXT *f, off_t sz) {
   EXF *impl = f->impl;
   assert(impl && impl->rspolicy);
+  if (sz < 0) { // -1 is the `dispose` argument of the resize policies, not a size
+    return IW_ERROR_OUT_OF_BOUNDS;
+  }
   if (impl->fsize >= sz) {
     return 0;
   }
